@@ -149,7 +149,7 @@ Section HmOOM.
   Proof.
     intros Hs n m m' (ch & fl & I) E.
     destruct (hm_rehash_ok K V kdflt vdflt keqb khash Hs n m (inv_keys _ _ _ _ _ _ _ I) (inv_size _ _ _ _ _ _ _ I))
-      as [(E' & _)|(m'' & E' & _ & _ & _ & _ & _ & _ & SZ)]; rewrite E in E'; [discriminate|].
+      as [(E' & _)|(m'' & E' & _ & _ & _ & _ & _ & _ & SZ & _)]; rewrite E in E'; [discriminate|].
     inversion E'; subst. exact SZ.
   Qed.
 End HmOOM.
